@@ -244,7 +244,8 @@ def run(a, res):
 
         # ---- wait (bounded, logical) for the upstream side of this transaction to settle
         t0 = time.time()
-        deadline = t0 + (6 if abort_at is not None else 2)
+        # (a throttled origin may still be draining what squid already handed to the kernel when squid has long answered)
+        deadline = t0 + (25 if c.get("bigslow") else 6 if abort_at is not None else 2)
         ups = lab.at_origin(rid)
         while time.time() < deadline:
             ups = lab.at_origin(rid)
